@@ -511,6 +511,8 @@ func lemmaRoundTripWatchUnwatch() (e1, e2, e3, e4 error, pos, n int) {
 //@   requires wwf(w) && regwf()
 //@   modifies w.buf, w.err, w.i16buf, w.i32buf
 //@   ensures  wwf(w)
+// "no message" is a value too (a PipeResult that reports a failure carries none): it is always encodable
+//@   ensures  message == nil && old(w.err) == nil ==> result == nil && w.err == nil
 //@ func (*Reader).ReadMessage
 //@   callspec ReadInto ensures regwf()
 //@   requires rwf(r) && regwf()
